@@ -278,7 +278,7 @@ impl Sink for FoldSink {
     }
 }
 
-const K: Key = Key { q: 0, a: 0, sub: 0, sa: 0 };
+const K: Key = Key { q: 0, a: 0, sub: 0, sa: 0, v: 0 };
 
 macro_rules! fold {
     ($body:expr) => {{
